@@ -5,7 +5,7 @@ use cnbv::*;
 use libherokubuildpack::inventory::Inventory;
 use libherokubuildpack::inventory::artifact::{Arch, Artifact, Os};
 use libherokubuildpack::inventory::checksum::{Checksum, ChecksumParseError, Digest};
-use libherokubuildpack::inventory::version::ArtifactRequirement;
+use libherokubuildpack::inventory::version::{ArtifactRequirement, VersionRequirement};
 use serde::{Deserialize, Serialize};
 use std::cmp::Ordering;
 
@@ -30,39 +30,79 @@ struct D2;
 impl Digest for D2 { fn name_compatible(n: &str) -> bool { n == "d2" } fn length_compatible(l: usize) -> bool { l == 2 } }
 struct S32;
 impl Digest for S32 { fn name_compatible(n: &str) -> bool { n == "sha256" } fn length_compatible(l: usize) -> bool { l == 32 } }
+struct S64;
+impl Digest for S64 { fn name_compatible(n: &str) -> bool { n == "sha512" } fn length_compatible(l: usize) -> bool { l == 64 } }
 
-/// requirement: a set of accepted versions (None = any) and a metadata condition (None = any)
-struct Q<V> { versions: Option<Vec<V>>, meta: Option<Md> }
+/// requirement on the version: any, none, one of a set, at least / below a bound, within bounds (by the version type's own `PartialOrd`)
+enum VReq<V> { Any, Set(Vec<V>), Ge(V), Lt(V), Within(V, V) }
+/// requirement: a version requirement and a metadata condition (None = any)
+struct Q<V> { versions: VReq<V>, meta: Option<Md> }
+fn ge<V: PartialOrd>(a: &V, b: &V) -> bool { matches!(a.partial_cmp(b), Some(Ordering::Greater | Ordering::Equal)) }
 macro_rules! req_impl { ($v:ty) => {
 impl ArtifactRequirement<$v, Md> for Q<$v> {
     fn satisfies_metadata(&self, m: &Md) -> bool { self.meta.as_ref().map(|w| w == m).unwrap_or(true) }
-    fn satisfies_version(&self, v: &$v) -> bool { self.versions.as_ref().map(|vs| vs.contains(v)).unwrap_or(true) }
+    fn satisfies_version(&self, v: &$v) -> bool {
+        match &self.versions { VReq::Any => true, VReq::Set(vs) => vs.contains(v), VReq::Ge(b) => ge(v, b), VReq::Lt(b) => matches!(v.partial_cmp(b), Some(Ordering::Less)), VReq::Within(lo, hi) => ge(v, lo) && ge(hi, v) }
+    }
 } } }
 req_impl!(Tv);
 req_impl!(Pv);
 
+/// a requirement on the version alone: implements only `VersionRequirement`, so that resolution goes through the library's blanket
+/// `impl ArtifactRequirement for VR: VersionRequirement` (metadata ignored); query metadata field `v`
+struct QV<V>(Q<V>);
+macro_rules! vreq_impl { ($v:ty) => { impl VersionRequirement<$v> for QV<$v> { fn satisfies(&self, v: &$v) -> bool { self.0.satisfies_version(v) } } } }
+vreq_impl!(Tv);
+vreq_impl!(Pv);
+enum AnyReq<V> { Full(Q<V>), Ver(QV<V>) }
+
 fn p_os(s: &str) -> Os { match s { "l" => Os::Linux, "d" => Os::Darwin, _ => panic!("os") } }
 fn p_arch(s: &str) -> Arch { match s { "x" => Arch::Amd64, "a" => Arch::Arm64, _ => panic!("arch") } }
-fn p_meta(s: &str) -> Md { match s { "n" => None, "0" => Some(0), "1" => Some(1), _ => panic!("meta") } }
+fn p_meta(s: &str) -> Md { match s { "n" => None, k => Some(k.parse::<u8>().expect("meta")) } }
 fn p_tv(s: &str) -> Tv { Tv(s.parse().unwrap()) }
 fn p_pv(s: &str) -> Pv { let (a, b) = s.split_once('.').unwrap(); Pv(a.parse().unwrap(), b.parse().unwrap()) }
 
-fn inventory<V>(arts: &str, pv: fn(&str) -> V) -> Inventory<V, (), Md> {
-    let mut inv = Inventory::new();
-    for (i, a) in split_list(arts, ",").iter().enumerate() {
-        let p: Vec<&str> = a.split('/').collect();
-        assert!(p.len() == 4);
-        inv.push(Artifact { version: pv(p[0]), os: p_os(p[1]), arch: p_arch(p[2]), url: i.to_string(), checksum: "any:00".parse::<Checksum<()>>().unwrap(), metadata: p_meta(p[3]) });
-    }
-    inv
+fn artifact<V>(i: usize, a: &str, pv: fn(&str) -> V) -> Artifact<V, (), Md> {
+    let p: Vec<&str> = a.split('/').collect();
+    assert!(p.len() == 4);
+    Artifact { version: pv(p[0]), os: p_os(p[1]), arch: p_arch(p[2]), url: i.to_string(), checksum: "any:00".parse::<Checksum<()>>().unwrap(), metadata: p_meta(p[3]) }
 }
 
-fn query<V>(q: &str, pv: fn(&str) -> V) -> (Os, Arch, Q<V>) {
+/// `[N@]os/arch/versions/meta`; `N@` = asked when only the first N artifacts have been pushed
+fn query<V>(q: &str, pv: fn(&str) -> V) -> (Option<usize>, Os, Arch, AnyReq<V>) {
+    let (upto, q) = match q.split_once('@') { Some((n, rest)) => (Some(n.parse::<usize>().expect("prefix")), rest), None => (None, q) };
     let p: Vec<&str> = q.split('/').collect();
     assert!(p.len() == 4);
-    let versions = match p[2] { "*" => None, "~" => Some(vec![]), vs => Some(vs.split('+').map(pv).collect()) };
+    let versions = match p[2] {
+        "*" => VReq::Any, "~" => VReq::Set(vec![]),
+        vs if vs.starts_with(">=") => VReq::Ge(pv(&vs[2..])),
+        vs if vs.starts_with('<') => VReq::Lt(pv(&vs[1..])),
+        vs if vs.contains('_') => { let (lo, hi) = vs.split_once('_').unwrap(); VReq::Within(pv(lo), pv(hi)) }
+        vs => VReq::Set(vs.split('+').map(pv).collect()),
+    };
+    if p[3] == "v" { return (upto, p_os(p[0]), p_arch(p[1]), AnyReq::Ver(QV(Q { versions, meta: None }))); }
     let meta = if p[3] == "*" { None } else { Some(p_meta(p[3])) };
-    (p_os(p[0]), p_arch(p[1]), Q { versions, meta })
+    (upto, p_os(p[0]), p_arch(p[1]), AnyReq::Full(Q { versions, meta }))
+}
+
+/// One inventory object for the whole case. Queries are answered in the order given; a query with a prefix `N@` is asked when exactly the
+/// first N artifacts have been pushed (pushes and resolutions interleave on the same object when the prefixes do not decrease; when a
+/// prefix decreases the object is rebuilt); queries without a prefix see all artifacts. `total` adds `resolve` (needs `Ord`).
+fn answer_all<V: Clone + PartialOrd>(arts: &str, queries: &str, pv: fn(&str) -> V, resolve: Option<&dyn Fn(&Inventory<V, (), Md>, Os, Arch, &AnyReq<V>) -> String>) -> (Vec<String>, Vec<String>, Inventory<V, (), Md>)
+where Q<V>: ArtifactRequirement<V, Md>, QV<V>: VersionRequirement<V> {
+    let all: Vec<Artifact<V, (), Md>> = split_list(arts, ",").iter().enumerate().map(|(i, a)| artifact(i, a, pv)).collect();
+    let mut inv: Inventory<V, (), Md> = Inventory::new();
+    let (mut r, mut p) = (vec![], vec![]);
+    for q in split_list(queries, ",") {
+        let (upto, os, arch, q) = query(q, pv);
+        let want = upto.unwrap_or(all.len()).min(all.len());
+        if inv.artifacts.len() > want { inv = Inventory::new(); }
+        while inv.artifacts.len() < want { let a = all[inv.artifacts.len()].clone(); inv.push(a); }
+        if let Some(f) = resolve { r.push(f(&inv, os, arch, &q)); }
+        p.push(match &q { AnyReq::Full(q) => res(inv.partial_resolve(os, arch, q)), AnyReq::Ver(q) => res(inv.partial_resolve(os, arch, q)) });
+    }
+    while inv.artifacts.len() < all.len() { let a = all[inv.artifacts.len()].clone(); inv.push(a); }
+    (r, p, inv)
 }
 
 fn res<V>(r: Option<&Artifact<V, (), Md>>) -> String { r.map(|a| a.url.clone()).unwrap_or_else(|| "none".into()) }
@@ -78,16 +118,11 @@ fn roundtrip<V: Serialize + serde::de::DeserializeOwned + Eq>(inv: &Inventory<V,
 fn run_case(f: &[String]) -> String {
     match f[0].as_str() {
         "T" => {
-            let inv = inventory(&f[1], p_tv);
-            let qs: Vec<_> = split_list(&f[2], ",").iter().map(|q| query(q, p_tv)).collect();
-            let r: Vec<String> = qs.iter().map(|(os, arch, q)| res(inv.resolve(*os, *arch, q))).collect();
-            let p: Vec<String> = qs.iter().map(|(os, arch, q)| res(inv.partial_resolve(*os, *arch, q))).collect();
+            let (r, p, inv) = answer_all(&f[1], &f[2], p_tv, Some(&|inv: &Inventory<Tv, (), Md>, os, arch, q: &AnyReq<Tv>| match q { AnyReq::Full(q) => res(inv.resolve(os, arch, q)), AnyReq::Ver(q) => res(inv.resolve(os, arch, q)) }));
             format!("r={};p={};{}", join(",", &r), join(",", &p), roundtrip(&inv))
         }
         "P" => {
-            let inv = inventory(&f[1], p_pv);
-            let qs: Vec<_> = split_list(&f[2], ",").iter().map(|q| query(q, p_pv)).collect();
-            let p: Vec<String> = qs.iter().map(|(os, arch, q)| res(inv.partial_resolve(*os, *arch, q))).collect();
+            let (_, p, inv) = answer_all(&f[1], &f[2], p_pv, None);
             format!("r=-;p={};{}", join(",", &p), roundtrip(&inv))
         }
         "F" => {
@@ -111,6 +146,7 @@ fn run_case(f: &[String]) -> String {
             }
             format!("{rt};enc={}", join(",", &enc))
         }
+        "R" => run_r(&f[1], &f[2]),
         "K" => {
             assert!(f[1] == "-" && f[2] == "-");
             let s = String::from_utf8(unhex(&f[4]).unwrap()).unwrap();
@@ -129,6 +165,7 @@ fn run_case(f: &[String]) -> String {
             match f[3].as_str() {
                 "d2" => show(s.parse::<Checksum<D2>>()),
                 "s32" => show(s.parse::<Checksum<S32>>()),
+                "s64" => show(s.parse::<Checksum<S64>>()),
                 "any" => show(s.parse::<Checksum<()>>()),
                 _ => panic!("digest"),
             }
@@ -176,6 +213,10 @@ fn k_case(dg: &str, s: &[u8], tag: &str) -> Case {
 
 fn generate(tier: &str, seed: u64, emit: &mut dyn FnMut(Case)) {
     let thorough = tier == "thorough";
+    // directed families: big inventories, ties, long antichains, value pools, requirement forms, interleaved push/resolve, TOML content, decorated checksums
+    generate_directed(thorough, seed, emit);
+    // family R: Display / FromStr round trip with version and metadata types of every TOML shape
+    generate_r(thorough, seed, emit);
     // ---- T: totally ordered versions ----
     let tq: Vec<String> = { let mut q = vec![]; for os in ["l", "d"] { for arch in ["x", "a"] { for vs in subsets(&["0", "1", "2"]) { q.push(format!("{os}/{arch}/{vs}/*")); } } } q };
     let kinds12: Vec<String> = { let mut k = vec![]; for v in ["0", "1", "2"] { for os in ["l", "d"] { for arch in ["x", "a"] { k.push(format!("{v}/{os}/{arch}/n")); } } } k };
@@ -294,6 +335,342 @@ fn generate(tier: &str, seed: u64, emit: &mut dyn FnMut(Case)) {
         for i in 0..len { s.push(if bad && (i == pos_bad || (two && i == pos_bad2)) { *r.pick(&[b'g', b' ', b':', b'x', b'-', b'+', b'\t', b'_', b'X', 0u8, b'.']) } else { *r.pick(b"0123456789abcdefABCDEF") }); }
         emit(k_case(dg, &s, "K-rnd"));
     }
+}
+
+// ------------------------------------------------------------------------------------------------ directed families
+
+/// sizes on both sides of the thresholds at which containers / sorts / buffers change behaviour
+const SIZES: &[usize] = &[16, 17, 20, 21, 32, 33, 64, 65, 128, 129, 256, 257];
+const SIZES_THOROUGH: &[usize] = &[500, 1000, 2000];
+/// u32 versions around every power-of-two / decimal-length boundary
+const TVALS: &[u32] = &[0, 1, 2, 9, 10, 11, 99, 100, 127, 128, 255, 256, 999, 1000, 32767, 32768, 65535, 65536, 16777215, 16777216, 2147483647, 2147483648, 4294967294, 4294967295];
+const MVALS: &[&str] = &["n", "0", "1", "2", "127", "128", "254", "255"];
+const PVALS: &[u8] = &[0, 1, 2, 3, 127, 128, 254, 255];
+
+fn bucket(n: usize) -> String { match n { 0..=8 => n.to_string(), 9..=16 => "9-16".into(), 17..=32 => "17-32".into(), 33..=64 => "33-64".into(), 65..=128 => "65-128".into(), 129..=256 => "129-256".into(), 257..=1024 => "257-1024".into(), _ => ">1024".into() } }
+
+/// like `resolve_case`, for inventories of any size (the pair statistics are taken per os/arch group)
+fn big_case(kind: &str, arts: &[String], queries: &[String], tag: &str, shape: &str) -> Case {
+    use std::collections::BTreeMap;
+    let mut groups: BTreeMap<(String, String), Vec<String>> = BTreeMap::new();
+    for a in arts { let p: Vec<&str> = a.split('/').collect(); groups.entry((p[1].into(), p[2].into())).or_default().push(p[0].into()); }
+    let several = groups.values().any(|g| g.len() >= 2);
+    let ties = groups.values().any(|g| { let mut v = g.clone(); v.sort(); v.windows(2).any(|w| w[0] == w[1]) });
+    let mut incomparable = false;
+    if kind == "P" {
+        // an incomparable pair exists in a group iff the group is not a chain: sort by (a, b) and look for a descent in b
+        for g in groups.values() { let mut v: Vec<Pv> = g.iter().map(|x| p_pv(x)).collect(); v.sort_by_key(|x| (x.0, x.1)); if v.windows(2).any(|w| w[1].1 < w[0].1) { incomparable = true; } }
+    }
+    let inc = queries.iter().any(|q| q.contains('@'));
+    let forms = queries.iter().any(|q| q.contains(">=") || q.contains('<') || q.contains('_'));
+    Case { fields: vec![kind.into(), join(",", arts), join(",", queries)],
+           tags: vec![("kind".into(), tag.into()), ("artifacts".into(), bucket(arts.len())), ("several".into(), u8::from(several).to_string()), ("ties".into(), u8::from(ties).to_string()),
+                      ("incomparable".into(), u8::from(incomparable).to_string()), ("shape".into(), shape.into()), ("interleaved".into(), u8::from(inc).to_string()), ("req-forms".into(), u8::from(forms).to_string())],
+           nontrivial: several }
+}
+
+/// queries for an inventory: every os/arch with any version; requirement forms built from versions that occur (a set, a lower bound, an upper
+/// bound, a window), metadata conditions that occur; some asked twice; with `inc` also at growing prefixes of the inventory around the sizes
+fn queries_for(r: &mut Rng, arts: &[String], inc: bool) -> Vec<String> {
+    let vers: Vec<&str> = arts.iter().map(|a| a.split('/').next().unwrap()).collect();
+    let metas: Vec<&str> = arts.iter().map(|a| a.rsplit('/').next().unwrap()).collect();
+    let pickv = |r: &mut Rng| if vers.is_empty() { "0".to_string() } else { (*r.pick(&vers)).to_string() };
+    let mut qs: Vec<String> = vec![];
+    for os in ["l", "d"] { for arch in ["x", "a"] { qs.push(format!("{os}/{arch}/*/{}", if os == "l" { "*" } else { "v" })); } }
+    let dotted = vers.first().is_some_and(|v| v.contains('.'));
+    for _ in 0..8 {
+        let os = if r.chance(3, 4) { "l" } else { "d" };
+        let arch = if r.chance(3, 4) { "x" } else { "a" };
+        let vs = match r.below(7) {
+            0 => "~".to_string(),
+            1 => { let mut v: Vec<String> = (0..r.range(1, 6)).map(|_| pickv(r)).collect(); v.sort(); v.dedup(); v.join("+") }
+            2 => format!(">={}", pickv(r)),
+            3 => format!("<{}", pickv(r)),
+            4 => { let (a, b) = (pickv(r), pickv(r)); if dotted { format!("{a}_{b}") } else { let (x, y): (u64, u64) = (a.parse().unwrap(), b.parse().unwrap()); format!("{}_{}", x.min(y), x.max(y)) } }
+            5 => pickv(r),
+            _ => "*".to_string(),
+        };
+        let m = if r.chance(1, 3) && !metas.is_empty() { (*r.pick(&metas)).to_string() } else if r.chance(1, 3) { "v".to_string() } else { "*".to_string() };
+        qs.push(format!("{os}/{arch}/{vs}/{m}"));
+    }
+    let again = qs[r.below(qs.len() as u64) as usize].clone();
+    qs.push(again); // the same question once more, later
+    let first = qs[0].clone();
+    qs.push(first);
+    if inc {
+        // the same object while it grows: prefixes around the thresholds that exist below its size, asked in growing order (0 = still empty)
+        let n = arts.len();
+        let mut cuts: Vec<usize> = vec![0, 1, 2];
+        cuts.extend(SIZES.iter().copied().filter(|c| *c < n));
+        cuts.extend([n.saturating_sub(1), n]);
+        cuts.sort(); cuts.dedup();
+        let mut incq = vec![];
+        for c in cuts { if c > n { continue; } let q = qs[r.below(4) as usize].clone(); incq.push(format!("{c}@{q}")); if r.chance(1, 2) { let q2 = qs[4 + r.below(8) as usize].clone(); incq.push(format!("{c}@{q2}")); } }
+        // then one prefix that goes back (the harness rebuilds the object) and the full inventory again
+        incq.push(format!("{}@l/x/*/*", n / 2));
+        incq.push("l/x/*/*".to_string());
+        qs = incq;
+    }
+    qs
+}
+
+fn generate_directed(thorough: bool, seed: u64, emit: &mut dyn FnMut(Case)) {
+    let mut idx: u64 = 0;
+    let rng = |idx: &mut u64| { *idx += 1; Rng::for_case(seed ^ 0x18D1_4EC7, *idx) };
+    let sizes: Vec<usize> = if thorough { SIZES.iter().chain(SIZES_THOROUGH).copied().collect() } else { SIZES.to_vec() };
+
+    // ---- T-big: totally ordered versions, inventories of 16..257 (thorough ..2000) artifacts
+    let tshapes = ["ascending", "descending", "all-equal", "three-values", "pool", "max-first", "max-last", "max-mid", "max-at-32", "max-at-33", "max-many", "sawtooth", "sparse-match"];
+    for &n in &sizes {
+        for (si, shape) in tshapes.iter().enumerate() {
+            let mut r = rng(&mut idx);
+            let hi = *r.pick(&TVALS[8..]);
+            let ver = |i: usize, r: &mut Rng| -> u32 {
+                match *shape {
+                    "ascending" => i as u32, "descending" => (n - i) as u32, "all-equal" => hi, "three-values" => [7u32, 8, 9][r.below(3) as usize], "pool" => *r.pick(TVALS),
+                    "max-first" => if i == 0 { hi } else { hi - 1 - (i % 3) as u32 }, "max-last" => if i == n - 1 { hi } else { hi - 1 - (i % 3) as u32 }, "max-mid" => if i == n / 2 { hi } else { hi - 1 },
+                    "max-at-32" => if i == 31 { hi } else { hi - 1 - (i % 2) as u32 }, "max-at-33" => if i == 32 { hi } else { hi - 1 - (i % 2) as u32 }, "max-many" => if i % 5 == 2 { hi } else { (i % 7) as u32 },
+                    "sawtooth" => (i % 17) as u32 * 1000 + (i / 17) as u32, _ => r.below(50) as u32,
+                }
+            };
+            // mostly one os/arch (so that many artifacts compete); `sparse-match`: every 7th artifact only
+            let arts: Vec<String> = (0..n).map(|i| {
+                let v = ver(i, &mut r);
+                let (os, arch) = if *shape == "sparse-match" { if i % 7 == 3 { ("l", "x") } else { (*r.pick(&["d", "l"]), "a") } } else if r.chance(1, 10) { (*r.pick(&["l", "d"]), *r.pick(&["x", "a"])) } else { ("l", "x") };
+                let m = if si % 3 == 0 { *r.pick(MVALS) } else { "n" };
+                format!("{v}/{os}/{arch}/{m}")
+            }).collect();
+            let inc = si % 4 == 1;
+            let qs = queries_for(&mut r, &arts, inc);
+            emit(big_case("T", &arts, &qs, "T-big", shape));
+        }
+    }
+    // ---- P-big: pairs under the product order: long antichains (i, 250-i), antichain + top / bottom element at different places, layers, chains, grids, duplicates
+    let pshapes = ["antichain", "antichain-rev", "antichain+top-first", "antichain+top-last", "antichain+top-mid", "antichain+bottom", "two-antichains", "chain", "chain-desc", "grid", "all-equal", "antichain-dups", "random", "antichain+tops"];
+    for &n in &sizes {
+        for (si, shape) in pshapes.iter().enumerate() {
+            let mut r = rng(&mut idx);
+            let k = n.min(250);   // distinct points of an antichain inside u8 x u8
+            let pt = |i: usize, r: &mut Rng| -> (u8, u8) {
+                let j = i % k;
+                let anti = (j as u8, (250 - j) as u8);
+                match *shape {
+                    "antichain" | "antichain-dups" => anti, "antichain-rev" => ((250 - j) as u8, j as u8),
+                    "antichain+top-first" => if i == 0 { (255, 255) } else { anti }, "antichain+top-last" => if i == n - 1 { (255, 255) } else { anti }, "antichain+top-mid" => if i == n / 2 { (255, 255) } else { anti },
+                    "antichain+bottom" => if i == n / 3 { (0, 0) } else { anti },
+                    "antichain+tops" => if i % 16 == 5 { (251 + (i % 3) as u8, 253) } else { anti },
+                    "two-antichains" => if i % 2 == 0 { ((j / 3) as u8, (100 - j / 3) as u8) } else { ((130 + j / 3) as u8, (255 - j / 3) as u8) },
+                    "chain" => ((i % 256) as u8, (i % 256) as u8), "chain-desc" => (255 - (i % 256) as u8, 255 - (i % 256) as u8),
+                    "grid" => ((i % 16) as u8, (i / 16 % 16) as u8), "all-equal" => (7, 9), _ => (*r.pick(PVALS), *r.pick(PVALS)),
+                }
+            };
+            let arts: Vec<String> = (0..n).map(|i| {
+                let (a, b) = pt(i, &mut r);
+                let (os, arch) = if r.chance(1, 12) { (*r.pick(&["l", "d"]), *r.pick(&["x", "a"])) } else { ("l", "x") };
+                let m = if si % 3 == 0 { *r.pick(MVALS) } else { "n" };
+                format!("{a}.{b}/{os}/{arch}/{m}")
+            }).collect();
+            let qs = queries_for(&mut r, &arts, si % 4 == 2);
+            emit(big_case("P", &arts, &qs, "P-big", shape));
+        }
+    }
+    // ---- value pools on small inventories: u32 boundaries, neighbouring values, metadata 0..255; pairs from {0,1,2,3,127,128,254,255}^2 with swapped / shifted neighbours
+    let nv = if thorough { 6_000 } else { 600 };
+    for _ in 0..nv {
+        let mut r = rng(&mut idx);
+        let partial = r.chance(1, 2);
+        let n = r.range(1, 10) as usize;
+        let mut vers: Vec<String> = vec![];
+        for _ in 0..n {
+            let v = if partial {
+                let base = if vers.is_empty() || r.chance(1, 2) { (*r.pick(PVALS), *r.pick(PVALS)) } else { let pv0: String = r.pick(&vers[..]).clone(); let p = p_pv(&pv0); match r.below(4) { 0 => (p.1, p.0), 1 => (p.0.saturating_add(1), p.1.saturating_sub(1)), 2 => (p.0, p.1.saturating_add(1)), _ => (p.0, p.1) } };
+                format!("{}.{}", base.0, base.1)
+            } else {
+                let base = if vers.is_empty() || r.chance(1, 2) { *r.pick(TVALS) } else { let p: u32 = r.pick(&vers[..]).parse().unwrap(); match r.below(3) { 0 => p.saturating_add(1), 1 => p.saturating_sub(1), _ => p } };
+                base.to_string()
+            };
+            vers.push(v);
+        }
+        let arts: Vec<String> = vers.iter().map(|v| format!("{v}/{}/{}/{}", if r.chance(4, 5) { "l" } else { "d" }, if r.chance(4, 5) { "x" } else { "a" }, r.pick(MVALS))).collect();
+        let inc = r.chance(1, 3);
+        let qs = queries_for(&mut r, &arts, inc);
+        emit(big_case(if partial { "P" } else { "T" }, &arts, &qs, if partial { "P-values" } else { "T-values" }, "values"));
+    }
+    // ---- F: TOML rendering and round trip — big inventories, version / metadata value pools, awkward text in url and checksum name, long digests
+    let long_url = format!("https://example.com/{}", "p/".repeat(2100));
+    let urls: Vec<String> = ["\u{feff}https://example.com/bom", "https://example.com/a\u{feff}", "trailing newline\n", "crlf\r\nline", "lone\rcr", "\r\n", "\n", " ", "  leading and trailing  ", "\t", "\u{1}\u{2}\u{1f}", "\u{7f}", "\u{0}", "nul\u{0}inside", "\u{80}\u{85}\u{9f}", "\u{a0}nbsp", "\u{2028}ls\u{2029}ps",
+        "'''", "\"\"\"", "'''\"\"\"'''", "''", "\"\"", "\\", "\\\\", "ends with backslash\\", "\\u0041", "\\n", "\\\"", "\"quoted\"", "'quoted'", "true", "false", "1979-05-27T07:32:00Z", "inf", "nan", "-nan", "0x10", "+1", "1_000", "1e3", "[[artifacts]]", "[artifacts]", "version = 1", "url = \"x\"", "# comment", "a = { b = 1 }", "{}", "[]",
+        "\u{1F4E6}", "\u{202e}rtl", "e\u{301}", "\u{fffd}", "\u{ffff}", "\u{10ffff}", "\u{d7ff}\u{e000}", "日本語", "ÄÖÜ", "%20%25", "a+b~c", "..", ".", "-", "--", "=", "==", ",", ";"].iter().map(|s| s.to_string()).chain([long_url, "x".repeat(255), "y".repeat(256), "z".repeat(257), "w".repeat(4096), "\u{e9}".repeat(3000)]).collect();
+    let names: Vec<String> = ["sha256", "sha512", "", " ", "  ", "\t", "\n", "\r\n", "trailing\n", "\u{feff}sha256", "sha256\u{feff}", "SHA256", "Sha256", "sha-256", "sha_256", "sha256 ", " sha256", "a b", "\"", "'", "'''", "\"\"\"", "\\", "\u{0}", "\u{1}", "\u{7f}", "ü", "日本", "\u{1F4E6}", "=", "#", "[", "]", "{", "}", ",", ".", "-", "+", "0", "00", "0x", "true", "inf", "/", "//", "a/b", "%3A", "%", "d2"].iter().map(|s| s.to_string()).chain(["n".repeat(255), "n".repeat(256), "n".repeat(4096)]).collect();
+    let digests: Vec<String> = ["", "00", "ff", "FF", "0aFf", "00ff00ff", "0123456789abcdef"].iter().map(|s| s.to_string()).chain([32usize, 63, 64, 65, 127, 128, 129, 256, 257, 2048].iter().map(|n| "c3".repeat(*n))).collect();
+    let f_case = |arts: &[String], tag: &str| Case { fields: vec!["F".into(), join(",", arts), "-".into()], tags: vec![("kind".into(), tag.into()), ("artifacts".into(), bucket(arts.len()))], nontrivial: !arts.is_empty() };
+    let f_art = |r: &mut Rng, url: &str, name: &str, digest: &str| format!("{}/{}/{}/{}/{}/{}", r.pick(TVALS), r.pick(&["l", "d"]), r.pick(&["x", "a"]), r.pick(MVALS), if url.is_empty() { String::new() } else { hex(url.as_bytes()) }, hex(format!("{name}:{digest}").as_bytes()));
+    // every url / name / digest of the pools once on its own (single-artifact inventory) …
+    for u in &urls { let mut r = rng(&mut idx); emit(f_case(&[f_art(&mut r, u, "sha256", "00ff")], "F-text")); }
+    for nme in &names { let mut r = rng(&mut idx); emit(f_case(&[f_art(&mut r, "https://example.com/a.tgz", nme, "00ff")], "F-text")); }
+    for d in &digests { let mut r = rng(&mut idx); emit(f_case(&[f_art(&mut r, "https://example.com/a.tgz", "any", d)], "F-text")); }
+    // … and mixed, in inventories of 0..12 and of the threshold sizes
+    let nfw = if thorough { 3_000 } else { 300 };
+    for i in 0..nfw {
+        let mut r = rng(&mut idx);
+        let n = if i % 25 == 0 { *r.pick(&sizes) } else { r.below(13) as usize };
+        let uniform_meta = if r.chance(1, 4) { Some(*r.pick(MVALS)) } else { None }; // all None / all the same value: the metadata key is absent / present in every table
+        let arts: Vec<String> = (0..n).map(|_| {
+            let (u, nm, dg) = (r.pick(&urls).clone(), r.pick(&names).clone(), r.pick(&digests).clone());
+            let a = f_art(&mut r, &u, &nm, &dg);
+            match uniform_meta { Some(m) => { let mut p: Vec<&str> = a.split('/').collect(); p[3] = m; p.join("/") } None => a }
+        }).collect();
+        emit(f_case(&arts, if n > 12 { "F-big" } else { "F-wide" }));
+    }
+    for &n in &sizes {
+        let mut r = rng(&mut idx);
+        // plain but big: n artifacts with distinct urls and 32-byte digests; then the same artifact n times
+        let arts: Vec<String> = (0..n).map(|i| f_art(&mut r, &format!("https://example.com/v{i}.tgz"), "sha256", &format!("{:064x}", i as u128 * 0x9E37_79B9_7F4A_7C15u128))).collect();
+        emit(f_case(&arts, "F-big"));
+        let one = f_art(&mut r, "same", "sha256", "00");
+        emit(f_case(&vec![one; n], "F-big"));
+    }
+    // ---- K: checksum strings — decorated valid strings (line ends, blanks, BOM, quotes, 0x, NUL before / after / around the colon), long digests and names
+    let valid: [(&str, String); 6] = [("d2", "d2:0aFf".into()), ("s32", format!("sha256:{}", "3b".repeat(32))), ("s64", format!("sha512:{}", "C4".repeat(64))), ("any", "any:".into()), ("any", "sha256:00ff".into()), ("any", ":".into())];
+    let decor: [&str; 22] = ["\n", "\r\n", "\r", " ", "\t", "\u{feff}", "\0", "\u{a0}", "\u{2028}", "\u{85}", "0x", "0X", "#", "\"", "'", ":", ";", ",", "=", "\\n", "%0A", "\u{200b}"];
+    for (dg, v) in &valid {
+        let (name, body) = v.split_once(':').unwrap();
+        for dec in decor {
+            for s in [format!("{v}{dec}"), format!("{dec}{v}"), format!("{name}:{dec}{body}"), format!("{name}{dec}:{body}"), format!("{dec}{v}{dec}"), format!("{name}:{body}{dec}{dec}")] {
+                emit(k_case(dg, s.as_bytes(), "K-decorated"));
+            }
+        }
+        // case variants of the algorithm name
+        for nm in [name.to_uppercase(), { let mut c = name.chars(); c.next().map(|f| f.to_uppercase().collect::<String>() + c.as_str()).unwrap_or_default() }] { emit(k_case(dg, format!("{nm}:{body}").as_bytes(), "K-decorated")); }
+    }
+    // lengths around the 64-byte digest and around 64/128/256/2048 bytes for the unconstrained one; odd lengths; one bad digit at the very end / beyond position 64, 128, 256
+    for (dg, name, bytes) in [("s64", "sha512", 64usize), ("any", "sha512", 64), ("any", "x", 128), ("any", "x", 256), ("any", "", 2048), ("s32", "sha256", 32), ("s64", "sha256", 64), ("s32", "sha512", 32)] {
+        // (the spec oracle tries every cut of the string, quadratic in its length: only a few strings of 4096 digits)
+        let deltas: &[i64] = if bytes >= 2048 { &[0, 1] } else { &[-2, -1, 0, 1, 2] };
+        for &delta in deltas {
+            let digits = (2 * bytes as i64 + delta) as usize;
+            let body: String = (0..digits).map(|i| char::from(b"0123456789abcdefABCDEF"[(i * 5) % 22])).collect();
+            emit(k_case(dg, format!("{name}:{body}").as_bytes(), "K-long"));
+            for bad_at in [digits.saturating_sub(1), digits.saturating_sub(2), 64.min(digits.saturating_sub(1)), 129.min(digits.saturating_sub(1)), digits / 2] {
+                if bytes >= 2048 && bad_at != digits - 1 { continue; }
+                for bad in ["g", "+", " ", "\n"] { let mut b = body.clone(); if bad_at < b.len() { b.replace_range(bad_at..bad_at + 1, bad); emit(k_case(dg, format!("{name}:{b}").as_bytes(), "K-long")); } }
+            }
+        }
+    }
+    for len in [255usize, 256, 257, 1000, 4096] {
+        emit(k_case("any", format!("{}:00ff", "n".repeat(len)).as_bytes(), "K-long"));
+        emit(k_case("any", format!("{}00ff", "n".repeat(len)).as_bytes(), "K-long"));           // no colon at all
+        emit(k_case("any", format!("{}:00ff", ":".repeat(len)).as_bytes(), "K-long"));           // colons only
+        emit(k_case("d2", format!("d2:{}", "0".repeat(len)).as_bytes(), "K-long"));
+    }
+}
+
+// ------------------------------------------------------------------------------------------------ family R: TOML round trip through Display / FromStr
+// with version and metadata types of every TOML shape (plain values, arrays, tables, arrays of tables, nested tables, optional ones)
+
+#[derive(Debug, Clone, PartialEq, Serialize, Deserialize)]
+struct Meta { channel: String, lts: bool }
+#[derive(Debug, Clone, PartialEq, Serialize, Deserialize)]
+struct Nested { name: String, inner: Meta, tags: Vec<String>, opt: Option<Meta>, more: std::collections::BTreeMap<String, Meta> }
+#[derive(Debug, Clone, PartialEq, Serialize, Deserialize)]
+struct OptFields { a: Option<String>, b: Option<u8>, c: Option<Meta> }
+#[derive(Debug, Clone, PartialEq, Serialize, Deserialize)]
+enum Chan { Stable, Beta, Nightly }
+#[derive(Debug, Clone, PartialEq, Serialize, Deserialize)]
+struct Newtype(String);
+/// a version that renders as a TOML table
+#[derive(Debug, Clone, PartialEq, Serialize, Deserialize)]
+struct SV { major: u32, minor: u32, pre: Option<String> }
+
+type SMap = std::collections::BTreeMap<String, String>;
+type MMap = std::collections::BTreeMap<String, Meta>;
+
+fn pieces(t: &str) -> Vec<&str> { if t.is_empty() { vec![] } else { t.split(';').collect() } }
+fn m_meta(t: &str) -> Meta { Meta { channel: t.to_string(), lts: t.len() % 2 == 1 } }
+fn m_int(t: &str) -> i64 { t.parse::<i64>().unwrap_or(t.len() as i64 * 7 - 3) }
+fn m_float(t: &str) -> f64 { t.parse::<f64>().ok().filter(|f| f.is_finite()).unwrap_or(t.len() as f64 + 0.5) }
+fn m_bool(t: &str) -> bool { t.len() % 2 == 1 }
+fn m_string(t: &str) -> String { t.to_string() }
+fn m_enum(t: &str) -> Chan { match t.len() % 3 { 0 => Chan::Stable, 1 => Chan::Beta, _ => Chan::Nightly } }
+fn m_array(t: &str) -> Vec<u32> { t.bytes().take(40).map(u32::from).collect() }
+fn m_sarray(t: &str) -> Vec<String> { pieces(t).iter().map(|p| p.to_string()).collect() }
+fn m_tuple(t: &str) -> (u8, String, bool) { (t.len() as u8, t.to_string(), t.len() % 2 == 1) }
+fn m_map(t: &str) -> SMap { pieces(t).iter().map(|p| match p.split_once('=') { Some((k, v)) => (k.to_string(), v.to_string()), None => (p.to_string(), p.chars().rev().collect()) }).collect() }
+fn m_opt_struct(t: &str) -> Option<Meta> { if t.is_empty() { None } else { Some(m_meta(t)) } }
+fn m_opt_map(t: &str) -> Option<SMap> { if t.len() % 3 == 0 { None } else { Some(m_map(t)) } }
+fn m_opt_fields(t: &str) -> OptFields { OptFields { a: if t.len() % 2 == 0 { None } else { Some(t.to_string()) }, b: if t.len() % 3 == 0 { None } else { Some(t.len() as u8) }, c: if t.len() % 5 < 2 { None } else { Some(m_meta(t)) } } }
+fn m_vec_struct(t: &str) -> Vec<Meta> { pieces(t).iter().map(|p| m_meta(p)).collect() }
+fn m_map_struct(t: &str) -> MMap { pieces(t).iter().map(|p| (p.to_string(), m_meta(p))).collect() }
+fn m_nested(t: &str) -> Nested { Nested { name: t.to_string(), inner: m_meta(t), tags: m_sarray(t), opt: if t.len() % 2 == 0 { None } else { Some(m_meta("opt")) }, more: m_map_struct(t) } }
+fn m_newtype(t: &str) -> Newtype { Newtype(t.to_string()) }
+fn m_none_unit(_: &str) -> Option<()> { None }
+fn m_opt_int(t: &str) -> Option<u8> { if t.is_empty() { None } else { Some(t.len() as u8) } }
+
+fn v_int(t: &str) -> Tv { Tv(t.parse::<u32>().unwrap_or(t.len() as u32)) }
+fn v_str(t: &str) -> String { t.to_string() }
+fn v_pair(t: &str) -> Pv { Pv(t.len() as u8, (t.len() * 3 % 256) as u8) }
+fn v_tbl(t: &str) -> SV { SV { major: t.len() as u32, minor: t.bytes().map(u32::from).sum::<u32>() % 100, pre: if t.len() % 2 == 0 { None } else { Some(t.to_string()) } } }
+
+const V_SHAPES: &[&str] = &["int", "str", "pair", "tbl"];
+const M_SHAPES: &[&str] = &["none-unit", "opt-int", "int", "float", "bool", "string", "enum", "array", "string-array", "tuple", "newtype", "struct", "map", "opt-struct", "opt-map", "opt-fields", "array-of-structs", "map-of-structs", "nested"];
+
+/// `Inventory::to_string()` (Display) then `str::parse::<Inventory>()` (FromStr): artifacts equal, field by field, and rendering again gives the same text
+fn rt<V, M>(arts: &str, pv: fn(&str) -> V, pm: fn(&str) -> M) -> String
+where V: Serialize + serde::de::DeserializeOwned + PartialEq, M: Serialize + serde::de::DeserializeOwned + PartialEq {
+    let text_of = |h: &str| String::from_utf8(unhex(h).expect("hex")).expect("utf8");
+    let mut inv: Inventory<V, (), M> = Inventory::new();
+    for (i, a) in split_list(arts, ",").iter().enumerate() {
+        let p: Vec<&str> = a.split('/').collect();
+        assert!(p.len() == 4);
+        inv.push(Artifact { version: pv(&text_of(p[0])), os: p_os(p[1]), arch: p_arch(p[2]), url: format!("https://example.com/{i}.tgz"), checksum: "sha256:cafebabe".parse::<Checksum<()>>().unwrap(), metadata: pm(&text_of(p[3])) });
+    }
+    let text = inv.to_string();
+    let back = match text.parse::<Inventory<V, (), M>>() { Ok(b) => b, Err(_) => return "rt=parse-error".into() };
+    if back.artifacts.len() != inv.artifacts.len() { return format!("rt=0:count:{}", back.artifacts.len()); }
+    for (i, (a, b)) in inv.artifacts.iter().zip(back.artifacts.iter()).enumerate() {
+        if a.version != b.version { return format!("rt=0:version:{i}"); }
+        if a.os != b.os || a.arch != b.arch || a.url != b.url || a.checksum != b.checksum { return format!("rt=0:plain-field:{i}"); }
+        if a.metadata != b.metadata { return format!("rt=0:metadata:{i}"); }
+    }
+    if back.to_string() != text { return "rt=0:second-rendering-differs".into(); }
+    "rt=1".into()
+}
+
+fn run_r(arts: &str, shape: &str) -> String {
+    let (vs, ms) = shape.split_once(':').expect("shape");
+    macro_rules! with_m { ($v:ty, $pv:expr) => { match ms {
+        "none-unit" => rt::<$v, Option<()>>(arts, $pv, m_none_unit), "opt-int" => rt::<$v, Option<u8>>(arts, $pv, m_opt_int), "int" => rt::<$v, i64>(arts, $pv, m_int), "float" => rt::<$v, f64>(arts, $pv, m_float),
+        "bool" => rt::<$v, bool>(arts, $pv, m_bool), "string" => rt::<$v, String>(arts, $pv, m_string), "enum" => rt::<$v, Chan>(arts, $pv, m_enum), "array" => rt::<$v, Vec<u32>>(arts, $pv, m_array),
+        "string-array" => rt::<$v, Vec<String>>(arts, $pv, m_sarray), "tuple" => rt::<$v, (u8, String, bool)>(arts, $pv, m_tuple), "newtype" => rt::<$v, Newtype>(arts, $pv, m_newtype),
+        "struct" => rt::<$v, Meta>(arts, $pv, m_meta), "map" => rt::<$v, SMap>(arts, $pv, m_map), "opt-struct" => rt::<$v, Option<Meta>>(arts, $pv, m_opt_struct), "opt-map" => rt::<$v, Option<SMap>>(arts, $pv, m_opt_map),
+        "opt-fields" => rt::<$v, OptFields>(arts, $pv, m_opt_fields), "array-of-structs" => rt::<$v, Vec<Meta>>(arts, $pv, m_vec_struct), "map-of-structs" => rt::<$v, MMap>(arts, $pv, m_map_struct),
+        "nested" => rt::<$v, Nested>(arts, $pv, m_nested),
+        _ => panic!("metadata shape"),
+    } } }
+    match vs { "int" => with_m!(Tv, v_int), "str" => with_m!(String, v_str), "pair" => with_m!(Pv, v_pair), "tbl" => with_m!(SV, v_tbl), _ => panic!("version shape") }
+}
+
+fn generate_r(thorough: bool, seed: u64, emit: &mut dyn FnMut(Case)) {
+    // texts the typed values are derived from (a text is the string itself / the key and value of map entries split at ';' and '=' / its length and parity for numbers, booleans, options)
+    let texts: Vec<String> = ["", "stable", "lts", "a", "ab", "abc", "1.2.3", "42", "-1", "3.5", "true", "k=v", "k=v;k2=v2;k3", "a;b;c;d;e", "x;x", "multi\nline", "crlf\r\n", "quote\"s", "single'q", "'''", "\"\"\"", "back\\slash", "tab\there", "ünï©ode ✓", "\u{1F4E6}", "\u{feff}bom",
+        "with space", " lead", "trail ", "dotted.key=1", "quoted key=\"v\"", "#=#", "[t]=[[a]]", "metadata", "artifacts", "version=1;os=linux", "1979-05-27", "inf", "nan", "=", ";", "=;=", "\u{0}", "\u{7f}"].iter().map(|s| s.to_string()).chain(["n".repeat(255), "k".repeat(300) + "=" + &"v".repeat(300)]).collect();
+    let sizes: &[usize] = if thorough { &[0, 1, 2, 3, 17, 33, 65, 257] } else { &[0, 1, 2, 3, 17, 33] };
+    let mut idx = 0u64;
+    let mut one = |vs: &str, ms: &str, n: usize, emit: &mut dyn FnMut(Case)| {
+        idx += 1;
+        let mut r = Rng::for_case(seed ^ 0x18_52_52, idx);
+        // either every artifact with its own text, or one text throughout (every artifact then has / lacks the optional parts alike)
+        let same = if r.chance(1, 4) { Some(r.pick(&texts).clone()) } else { None };
+        let arts: Vec<String> = (0..n).map(|_| { let tv = r.pick(&texts).clone(); let tm = same.clone().unwrap_or_else(|| r.pick(&texts).clone()); format!("{}/{}/{}/{}", hex(tv.as_bytes()), r.pick(&["l", "d"]), r.pick(&["x", "a"]), hex(tm.as_bytes())) }).collect();
+        let table_meta = ["struct", "map", "opt-struct", "opt-map", "opt-fields", "array-of-structs", "map-of-structs", "nested"].contains(&ms);
+        emit(Case { fields: vec!["R".into(), join(",", &arts), format!("{vs}:{ms}")],
+                    tags: vec![("kind".into(), "R".into()), ("artifacts".into(), bucket(n)), ("version-shape".into(), vs.into()), ("metadata-shape".into(), ms.into()), ("table-metadata".into(), u8::from(table_meta).to_string())],
+                    nontrivial: n >= 1 });
+    };
+    for vs in V_SHAPES { for ms in M_SHAPES { for &n in sizes { one(vs, ms, n, emit); } } }
+    // more draws at the small sizes (several artifacts with table metadata, with and without the optional parts)
+    let extra = if thorough { 40 } else { 4 };
+    for _ in 0..extra { for vs in V_SHAPES { for ms in M_SHAPES { for n in [1usize, 2, 3, 5] { one(vs, ms, n, emit); } } } }
 }
 
 fn main() { main_loop_jobs("c18", 4, &generate, &run_case); }
